@@ -13,6 +13,18 @@ theorem natCast_succ_gt_one (n : Nat) : decide ((n : Int) + 1 + 1 > 1) = true :=
   have : (n : Int) + 1 + 1 > 1 := by omega
   simpa using this
 
+theorem evalB_cons {σ : Type} (P : Prims σ) (env : Env) (w : σ) (s : Stmt) (rest : List Stmt) :
+    evalB P env w (s :: rest) =
+      match evalS P env w s with
+      | some (env', w', .norm) => evalB P env' w' rest
+      | other => other := by
+  rw [evalB]
+  cases evalS P env w s with
+  | none => rfl
+  | some x =>
+    obtain ⟨e, w', c⟩ := x
+    cases c <;> rfl
+
 open Lean.Parser.Tactic in
 /-- unfold the MiniGo interpreter (on a concrete program) together with the given definitions -/
 macro "go_simp" "[" ts:simpLemma,* "]" : tactic =>
